@@ -3,7 +3,8 @@ on the reader model, compared with the implementation: items, final outcome incl
 number of read calls.  BTOR2: every field of every line (or, flags 'w', the bytes `Line::write_into` writes for every
 parsed line), plus `pa b2c` cases for the validating constructors of the constants.  AIGER flags 'w': the whole-file API;
 'x': the whole-file API, then the bytes the crate's writers produce for the parsed value (ascii::Writer::write_aig; binary:
-binary::Writer::write_ordered_aig, the same with every gate's inputs exchanged, ascii::Writer::write_ordered_aig).
+binary::Writer::write_ordered_aig, the same with every gate's inputs exchanged, ascii::Writer::write_ordered_aig);
+'kN': the streaming API with at most N entries taken per section (the section-switch methods skip the rest).
 DIMACS (cnf/wcnf/gcnf) flags 'x': after a clean end, W:<hex of header and clauses written back with write_header / write_clause>."""
 import re
 import zlib
@@ -195,6 +196,11 @@ def gen_aiger(rng, parser):
     # 'w': whole-file API; 'x': whole-file API, then the value written back with the crate's writer (one draw, as before)
     fr = rng.random()
     flags = "w" if fr < 0.25 else ("x" if fr < 0.45 else "-")
+    if flags == "-" and zlib.crc32(data) % 100 < 27:
+        # 'kN' (about 15 % of the AIGER cases): streaming API with at most N entries taken per section, the section-switch
+        # methods skip the rest (model: AigerStream.parse_aag_take / parse_aig_take); decided from the document, not by a
+        # draw: the other cases of the stream stay what they were
+        flags = "k%d" % (zlib.crc32(data) // 100 % 4)
     sched = docs.gen_schedule(rng, len(data))
     if rng.random() < 0.15:
         sched = faulty(rng, sched, len(data))
@@ -236,7 +242,9 @@ def gen(rng, n, tier, **kw):
 
 def category(case):
     t = case.split()
-    return "pa/" + t[1] + ("/w" if t[1] == "btor2" and "w" in t[3] else "") + ("/x" if t[1] in ("aag", "aig", "cnf", "wcnf", "gcnf") and "x" in t[3] else "")
+    return ("pa/" + t[1] + ("/w" if t[1] == "btor2" and "w" in t[3] else "")
+            + ("/x" if t[1] in ("aag", "aig", "cnf", "wcnf", "gcnf") and "x" in t[3] else "")
+            + ("/k" if t[1] in ("aag", "aig") and "k" in t[3] else ""))
 
 
 def nontrivial(case):
